@@ -28,8 +28,8 @@ Section Spec.
     | PStr s | PBytes s => str_jv s
     | PHex s => JStr (hex_digits s)
     | PStrs l => JArr (map str_jv l)
-    | PStringer o => stringer_jv nil_jv o
-    | PStringers l => JArr (map (stringer_jv nil_jv) l)
+    | PStringer o => stringer_jv JNull o
+    | PStringers l => JArr (map (stringer_jv JNull) l)
     | PBool b => JBool b
     | PBools l => JArr (map JBool l)
     | PInt z => JNum (print_Z z)
@@ -61,8 +61,6 @@ Section Spec.
   Definition prim_ok (p : prim) : Prop :=
     match p with
     | PHex s => Forall (fun b => b < 256) s
-    | PStringer None => iface_ok (s_nil_iface st)
-    | PStringers l => In None l -> iface_ok (s_nil_iface st)
     | PF32 f | PF64 f => float_ok f
     | PFs32 l | PFs64 l => Forall float_ok l
     | PTime t => time_ok t
